@@ -426,12 +426,12 @@ def run_property(prop, tier, seed, level, explanation="", trusted_base=(), worke
         json.dump(evidence, f, indent=1, default=str)
     print(f"{prop} tier={tier}: obligations={n_ob} discharged={n_dis} known={n_known} new-violations={len(violations)} undecided={len(undecided)} "
           f"errors={len(crashes)} bounded-evals={bounded_eval} wall={wall:.1f}s")
-    if any(confirmed for _, _, confirmed in violations):
-        return 1  # a violation replayed on the real code stands, whatever else was left undecided
+    if violations:
+        # a refuted obligation stands (replayed on the real code or not), whatever else crashed or was left undecided: every
+        # obligation is discharged in its own process, a crash elsewhere cannot produce a refutation here
+        return 1
     if crashes:
         return 3
-    if violations:
-        return 1
     if undecided:
         return 2
     if n_ob + bounded_eval == 0:
